@@ -17,6 +17,15 @@ CHECKS = {
              "(types.rs compiled into the harness by #[path]) on ~170k requests including malformed keys.",
              note=BASE_NOTE + "Modelled by hand: str::rsplitn, strip_prefix, parse::<u64>, u64 Display.",
              tech="Lean 4 proof (induction on the key prefix; decimal round-trip) + translator + differential correspondence", ref="§6 C25"),
+ "C18": dict(text="Theorems C18_inv / C18_inv_bytes / C18_sealed_immutable / C18_counters_in_range / C18_rejected_unchanged: for command "
+             "(and raw byte) sequences of any length over any topics and nodes, segments are numbered 1..current with one leader each, "
+             "the open leader is the topic leader, sealed history is immutable, offset = sum of sealed counts, no u64 counter overflows. "
+             "Model = Meta.applyCmd/applyBytes; executable model compared with the real Metadata::apply (metadata.rs compiled by #[path]) "
+             "on all sequences of depth 4 over a 13-command alphabet + random long sequences + corrupted encodings; independent oracle on "
+             "the implementation's state after every command.",
+             note=BASE_NOTE + "bincode and octopii are stand-ins (harness/shims): undecodable-byte handling is compared against the stand-in decoder, "
+             "not the real bincode crate. HashMap order canonicalised. Full strength after fix 2d34e24 (checked_add).",
+             tech="Lean 4 proof (inductive invariant over command lists) + differential correspondence + oracle", ref="§6 C18"),
 }
 NOT_APPLICABLE = {
  "C19": "statement about the vendored openraft core + QUIC transport + tokio runtime, none of which can be built or run offline here (tokio, quinn, rustls, futures absent from the registry); a free-standing Raft proof would be tied to nothing (DESIGN.md §6 C19)",
